@@ -106,7 +106,7 @@ func genString(t *rapid.T, label string) string {
 	case 1, 2, 3:
 		return rapid.StringMatching(`[a-z0-9_.-]{1,12}`).Draw(t, label)
 	case 4:
-		return rapid.SampledFrom([]string{`"`, `\`, `a"b`, `<script>`, " ", " ", "\x00", "\x7f", "é", "日本", "\U0001F600", `{"ver":1}`, "null", " ", "\t\n", "&amp;"}).Draw(t, label)
+		return rapid.SampledFrom([]string{`"`, `\`, `a"b`, `<script>`, " ", " ", "\x00", "\x7f", "é", "日本", "\U0001F600", `{"ver":1}`, "null", " ", "\t\n", "&amp;", `\u003c`, `x\u0026y`, `\u003e`, `\n`, `\"`, `\\`, `\u00e9`, "a&b<c>d"}).Draw(t, label)
 	default:
 		s := rapid.String().Draw(t, label)
 		if !utf8.ValidString(s) {
@@ -308,7 +308,7 @@ func swapCase(s string, mode int) string {
 	}
 }
 
-var retypes = []string{`null`, `"x"`, `1`, `true`, `[]`, `{}`, `1.5`, `-1`, `"1"`, `[1]`, `{"a":1}`, `1e2`, `65536`, `4294967297`}
+var retypes = []string{`0`, `2`, `3`, `255`, `65535`, `false`, `""`, `null`, `"x"`, `1`, `true`, `[]`, `{}`, `1.5`, `-1`, `"1"`, `[1]`, `{"a":1}`, `1e2`, `65536`, `4294967297`}
 
 func genText(t *rapid.T) TextCase {
 	kind := rapid.IntRange(0, 9).Draw(t, "kind")
@@ -332,7 +332,11 @@ func genText(t *rapid.T) TextCase {
 		c := genConsistentValue(t)
 		ms := baseMembers(c)
 		// index among the 11 required members (skip "usage" at 9)
-		ri := rapid.IntRange(0, 10).Draw(t, "member")
+		// "ver" (10) is drawn more often: it selects the rule set for everything else
+		ri := rapid.IntRange(0, 14).Draw(t, "member")
+		if ri > 10 {
+			ri = 10
+		}
 		idx := ri
 		if ri >= 9 {
 			idx = ri + 1
